@@ -6,7 +6,7 @@ PROPS = {
     "C01": {
         "title": "A machine never executes two tasks at once",
         "lean": ["TopsimProps.C02", "TopsimProps.SysSafety", "TopsimProofs.Bridge.Queries", "TopsimProps.L3", "TopsimProps.C01Intervals"],
-        "streams": [("default", 24, 300), ("adversary", 24, 400), ("chaotic", 24, 400), ("clusterops", 30, 600), ("big", 6, 80)],
+        "streams": [("default", 24, 300), ("adversary", 24, 400), ("chaotic", 24, 400), ("clusterops", 30, 600), ("big", 6, 80), ("contended", 16, 300)],
         "monitor": ["C01"],
         "files": ["topsim/core/scheduler.py", "topsim/core/cluster.py", "topsim/core/task.py"],
     },
@@ -79,6 +79,7 @@ PROPS = {
         "title": "The per-timestep table reports the true state, one row per step",
         "lean": ["TopsimProps.C12", "TopsimProps.SysSafety", "TopsimProps.Pause", "TopsimProps.C12Traj"],
         "streams": [("default", 32, 500), ("overlap", 16, 300), ("runlevel", 16, 300), ("tierback", 12, 200), ("tiering", 8, 150), ("units", 6, 80), ("big", 4, 60)],
+        "direct": ["c11"],
         "monitor": ["C12"],
     },
     "C13": {
@@ -124,7 +125,7 @@ PROPS = {
     "C19": {
         "title": "Idle/empty/finished queries tell the truth",
         "lean": ["TopsimProps.C19", "TopsimProofs.Bridge.Queries"],
-        "streams": [("default", 24, 300), ("chaotic", 12, 200), ("clusterops", 20, 400), ("tiering", 10, 150), ("tierback", 8, 100), ("shutdown", 12, 150)],
+        "streams": [("default", 24, 300), ("chaotic", 12, 200), ("clusterops", 20, 400), ("tiering", 10, 150), ("tierback", 8, 100), ("shutdown", 12, 150), ("edge", 16, 200)],
         "monitor": ["C19"],
     },
 }
